@@ -1,19 +1,13 @@
-//! E1: the real diplomat-runtime source files, #[path]-included so that private items are
-//! reachable without any hook in /repo. Harnesses live in the sibling modules.
+//! E1: the real diplomat-runtime source files (lib.rs and the modules it declares), included by path so that
+//! private items are reachable without any hook in /repo. Harnesses live in the sibling modules.
 #![allow(unused, clippy::all)]
 #![cfg_attr(not(kani), no_std)]
-extern crate alloc;
+// (`extern crate alloc;` comes with the included root)
 #[cfg(not(kani))]
 extern crate std;
 
-#[path = "/repo/runtime/src/write.rs"]
-pub mod write;
-#[path = "/repo/runtime/src/slices.rs"]
-pub mod slices;
-#[path = "/repo/runtime/src/result.rs"]
-pub mod result;
-#[path = "/repo/runtime/src/callback.rs"]
-pub mod callback;
+// the runtime's own crate root (lib.rs) with its `mod x;` lines pointed at /repo/runtime/src/x.rs; regenerated on every run
+include!("../../../cache/gen/rt_root.rs");
 
 #[cfg(kani)]
 mod tok;
